@@ -374,3 +374,54 @@ fn c13_enc_splice() {
     kani::cover!(to, "splice to");
     kani::cover!(!to, "splice from");
 }
+
+// =========================================================================================
+// C08/C12  c08.pool.new_drop — ReadBufPool::new registers a ring of pool_size entries (base + i*bs, bs, i), tail =
+//   pool_size, and its Drop unregisters the group and frees both allocations with the layouts used at creation; a
+//   refused registration frees the ring allocation and returns the error.  pool_size in {1, 2} (bounded).
+// =========================================================================================
+#[kani::proof]
+#[kani::unwind(4)]
+fn c08_pool_new_drop() {
+    let mut ring = FakeSq::<1>::new(0, 0, 0);
+    let subs = subs_of(ring.shared(1, false, false));
+    let pool_size: u16 = if kani::any() { 1 } else { 2 };
+    let buf_size: u32 = kani::any();
+    kani::assume(buf_size >= 1 && buf_size <= 16);
+    let fail: bool = kani::any();
+    unsafe {
+        env::E.reg_ret[0] = if fail { -1 } else { 0 };
+        env::E.reg_errno[0] = libc::ENOMEM;
+        env::E.reg_copy = 16;
+    }
+    let r = ReadBufPool::new(sq_from((*subs).clone()), pool_size, buf_size);
+    assert!(unsafe { env::E.reg_n } == 1);
+    let call = unsafe { env::E.regs[0] };
+    assert!(call.fd == vu::RING_FD && call.opcode == libc::IORING_REGISTER_PBUF_RING && call.nr_args == 1);
+    // struct io_uring_buf_reg { u64 ring_addr; u32 ring_entries; u16 bgid; u16 flags; u64 resv[3] }
+    assert!(call.words[1] as u32 == pool_size as u32, "ring_entries == pool size");
+    match r {
+        Ok(pool) => {
+            assert!(!fail);
+            assert!(call.words[0] == pool.ring_addr.addr() as u64 && (call.words[1] >> 32) as u16 == pool.id && (call.words[1] >> 48) == 0, "the registered ring is this pool's, under its group id");
+            let ringp = pool.ring_addr.cast::<libc::io_uring_buf>();
+            let e0 = unsafe { ringp.read() };
+            assert!(e0.addr == pool.bufs_addr.addr() as u64 && e0.len == buf_size && e0.bid == 0, "entry 0 offers buffer 0");
+            if pool_size == 2 {
+                let e1 = unsafe { ringp.add(1).read() };
+                assert!(e1.addr == pool.bufs_addr.addr() as u64 + buf_size as u64 && e1.len == buf_size && e1.bid == 1, "entry i offers (base + i*bs, bs, i)");
+            }
+            assert!(e0.resv == pool_size, "tail == pool size: every buffer is offered to the kernel");
+            assert!(pool.tail_mask == pool_size - 1 && pool.pool_size == pool_size && pool.buf_size == buf_size);
+            drop(pool);
+            assert!(unsafe { env::E.reg_n } == 2 && unsafe { env::E.regs[1].opcode } == libc::IORING_UNREGISTER_PBUF_RING, "Drop unregisters the group (both allocations are freed with their creation layouts: CBMC checks dealloc)");
+        }
+        Err(e) => {
+            assert!(fail && e.raw_os_error() == Some(libc::ENOMEM), "registration refused: error returned, ring allocation freed");
+            assert!(unsafe { env::E.reg_n } == 1, "nothing to unregister");
+            std::mem::forget(e);
+        }
+    }
+    kani::cover!(!fail && pool_size == 2, "two buffers");
+    kani::cover!(fail, "registration refused");
+}
